@@ -5,6 +5,7 @@ manifest text, any number of remotes and any completion order.
 -/
 import ArvVerif.Proofs.C18
 import ArvVerif.Proofs.C18_Legacy
+import ArvVerif.Proofs.C18_Lines
 namespace ArvVerif.C18
 
 /-! ## Conn.CollectionGet by portable data hash -/
@@ -287,6 +288,62 @@ example : rewriteManifest f18aManifest "zzzzz".toList = f18aManifest := by decid
 example : rewriteManifest ". 0123456789abcdef0123456789abcdef+3+Afoo\n./x+Ay 0:3:f\n".toList "zzzzz".toList
     = ". 0123456789abcdef0123456789abcdef+3+Rzzzzz-foo\n./x+Ay 0:3:f\n".toList := by decide
 
+/-- what happens to one token of one line (no newline inside): a block token is rewritten hint
+by hint, anything else is kept -/
+def specTok1 (id t : Str) : Str :=
+  if locPrefix t then joinWith '+' (mapTail (specHint id) (splitOn '+' t)) else t
+
+/-- **Only signatures are rewritten, in the manifest format's own terms, for every text.**
+The relayed text has the same lines (split on `\n`) in the same order; every line has the same
+tokens (split on single spaces) in the same order; the first token of every line — the stream
+name — is byte-identical; every later token that does not begin with 32 hex digits and `+` (file
+tokens) is byte-identical; in a block token the hash, the size and every hint that does not begin
+with `A` are byte-identical and in place, and each hint `A…` has become `R<id>-…`. No hypothesis
+on the text (lines may end in a block locator: since fix d80c6cd that changes nothing). -/
+theorem C18_rewrite_only_signatures_lines (mt id : Str) (hsp : ' ' ∉ id) (hnl : '\n' ∉ id) :
+    rewriteManifest mt id = joinWith '\n' (splitOn '\n' (rewriteManifest mt id)) ∧
+    (splitOn '\n' (rewriteManifest mt id)).length = (splitOn '\n' mt).length ∧
+    (∀ (k : Nat) (l : Str), (splitOn '\n' mt)[k]? = some l →
+      ∃ l', (splitOn '\n' (rewriteManifest mt id))[k]? = some l' ∧
+        l' = joinWith ' ' (splitOn ' ' l') ∧
+        splitOn ' ' l' = mapTail (specTok1 id) (splitOn ' ' l) ∧
+        (splitOn ' ' l').head? = (splitOn ' ' l).head?) := by
+  refine ⟨(joinWith_splitOn _ _).symm, ?_, ?_⟩
+  · rw [lines_rewriteManifest mt id hnl, List.length_map]
+  · intro k l hk
+    refine ⟨rwLine id l, ?_, (joinWith_splitOn _ _).symm, ?_, ?_⟩
+    · rw [lines_rewriteManifest mt id hnl, List.getElem?_map, hk]; rfl
+    · rw [tokens_rwLine id l hsp]
+      congr 1
+      funext t
+      simp only [rwTok1, specTok1, replaceSig_eq_hints]
+    · rw [tokens_rwLine id l hsp]
+      cases splitOn ' ' l <;> simp [mapTail]
+
+/-- The text-level form of the same statement, without any hypothesis at all (not even on the id):
+`rewriteManifest` *is* the line-by-line, token-by-token rewrite. -/
+theorem C18_rewrite_is_line_by_line (mt id : Str) :
+    rewriteManifest mt id =
+      joinWith '\n' ((splitOn '\n' mt).map (fun l => joinWith ' ' (mapTail (rwTok1 id) (splitOn ' ' l)))) :=
+  rewriteManifest_eq_byLines mt id
+
+/-- By-UUID fetches relay with the same guarantee as by-PDH fetches: the collection handed to the
+client is the chosen backend's, byte-identical for the own cluster, and otherwise its manifest is
+the line-by-line, token-by-token signature rewrite of what that backend sent (nothing else
+changes); the difference to by-PDH is only that no hash test is applied. -/
+theorem C18_by_uuid_only_signatures (md5 : Str → Str) (s : Script) (c : Coll)
+    (hlen : s.req.length = 27) (h : collectionGet md5 s = .ok c) :
+    ∃ rc, chooseBackend s.clusterID s.loc s.remotes s.req = .coll rc ∧ c.uuid = rc.uuid ∧
+      ((s.req.take 5 = s.clusterID ∧ c.manifest = rc.manifest) ∨
+       (s.req.take 5 ≠ s.clusterID ∧ c.manifest = rewriteByLines rc.manifest (s.req.take 5))) := by
+  obtain ⟨rc, h1, h2⟩ := C18_by_uuid_relay md5 s c hlen h
+  refine ⟨rc, h1, ?_, ?_⟩
+  · rw [h2]; split <;> rfl
+  · by_cases hp : s.req.take 5 = s.clusterID
+    · left; refine ⟨hp, ?_⟩; rw [h2]; simp [hp]
+    · right; refine ⟨hp, ?_⟩; rw [h2]; simp only [ne_eq, hp, not_false_eq_true, if_true]
+      exact rewriteManifest_eq_byLines _ _
+
 /-! ## PortableDataHash against the published definition -/
 
 def isWS (c : Char) : Bool := c == '\n' || c == '\r' || c == '\t' || c.toNat == 11 || c.toNat == 12
@@ -334,6 +391,80 @@ theorem C18_pdh_is_spec_partial (mt : Str)
     cases hn : sizedLen t with
     | none => rfl
     | some n => simp [hwf t ht n hn]
+
+/-- no token has anything but well-formed hints glued to its hash+size — the exact complement of
+the F18b witness shape (`_glued` in the plugin) -/
+def NoGlued (mt : Str) : Prop :=
+  ∀ t ∈ (splitOn ' ' mt).tail, ∀ n, sizedLen t = some n → wfHints (t.drop n) = true
+
+theorem stripTok_no_space (t : Str) (h : ' ' ∉ t) : ' ' ∉ stripTok t := by
+  unfold stripTok
+  split
+  · intro hm; exact h ((List.take_sublist _ _).subset hm)
+  · exact h
+
+theorem specStripTok_no_space (t : Str) (h : ' ' ∉ t) : ' ' ∉ specStripTok t := by
+  unfold specStripTok
+  split
+  · split
+    · intro hm; exact h ((List.take_sublist _ _).subset hm)
+    · exact h
+  · exact h
+
+theorem mapTail_no_space (f : Str → Str) (hf : ∀ t, ' ' ∉ t → ' ' ∉ f t) (mt : Str) :
+    ∀ t ∈ mapTail f (splitOn ' ' mt), ' ' ∉ t := by
+  intro t ht
+  rcases mem_mapTail _ _ _ ht with h | ⟨y, hy, rfl⟩
+  · exact not_mem_of_mem_splitOn ' ' mt t (List.mem_of_mem_head? h)
+  · exact hf y (not_mem_of_mem_splitOn ' ' mt y (List.mem_of_mem_tail hy))
+
+/-- F18b characterised exactly: the text PortableDataHash hashes is the published one **iff** no
+token has non-hint bytes glued to its hash+size. So the finding's witness shape is precisely the
+set of texts on which the code deviates, and `C18_pdh_is_spec_partial`'s hypothesis cannot be
+weakened. -/
+theorem C18_pdh_is_spec_exact (mt : Str) : pdhText mt = specText mt ↔ NoGlued mt := by
+  constructor
+  · intro heq t ht n hn
+    unfold pdhText specText at heq
+    have h1 := splitOn_joinWith ' ' (mapTail stripTok (splitOn ' ' mt))
+      (mapTail_ne_nil _ _ (splitOn_ne_nil _ _)) (mapTail_no_space _ stripTok_no_space mt)
+    have h2 := splitOn_joinWith ' ' (mapTail specStripTok (splitOn ' ' mt))
+      (mapTail_ne_nil _ _ (splitOn_ne_nil _ _)) (mapTail_no_space _ specStripTok_no_space mt)
+    rw [heq, h2] at h1
+    cases hs : splitOn ' ' mt with
+    | nil => rw [hs] at ht; simp at ht
+    | cons a as =>
+      rw [hs] at ht h1
+      simp only [mapTail, List.cons.injEq, true_and] at h1
+      have hpt := (List.map_inj_left.mp h1) t ht
+      simp only [stripTok, specStripTok, hn] at hpt
+      cases hw : wfHints (t.drop n) with
+      | true => rfl
+      | false =>
+        rw [hw] at hpt
+        simp only [Bool.false_eq_true, if_false] at hpt
+        -- t = t.take n, so nothing follows the prefix, so wfHints holds after all
+        have hdrop : t.drop n = [] := by
+          have := List.take_append_drop n t
+          rw [← hpt] at this
+          exact List.append_cancel_left (by rw [List.append_nil]; exact this)
+        rw [hdrop] at hw
+        simp [wfHints] at hw
+  · intro h
+    unfold pdhText specText
+    congr 1
+    cases hs : splitOn ' ' mt with
+    | nil => rfl
+    | cons a as =>
+      unfold NoGlued at h
+      rw [hs] at h
+      simp only [mapTail, List.cons.injEq, true_and]
+      apply List.map_congr_left
+      intro t ht
+      unfold stripTok specStripTok
+      cases hn : sizedLen t with
+      | none => rfl
+      | some n => simp [h t ht n hn]
 
 /-! ## legacy path: rewriteSignatures and the fan-out of fetchRemoteCollectionByPDH -/
 
